@@ -12,6 +12,8 @@ use std::panic;
 
 mod selftest;
 
+thread_local! { static LOC: std::cell::RefCell<String> = std::cell::RefCell::new(String::new()); }
+
 fn main() {
     let args: Vec<String> = std::env::args().skip(1).collect();
     let profile = if cfg!(debug_assertions) { "dev" } else { "release" };
@@ -35,7 +37,11 @@ fn main() {
     };
     let vals: Vec<u64> = args[1..].iter().map(|s| s.parse::<u128>().map(|v| v as u64).expect("value")).collect();
     native::load(vals);
-    panic::set_hook(Box::new(|_| {}));
+    panic::set_hook(Box::new(|info| {
+        if let Some(l) = info.location() {
+            LOC.with(|c| *c.borrow_mut() = format!("{}:{}", l.file(), l.line()));
+        }
+    }));
     let r = panic::catch_unwind(|| f());
     let _ = panic::take_hook();
     let (failed, covered, exhausted, used) = native::ST.with(|s| {
@@ -65,13 +71,19 @@ fn main() {
             }
         }
     }
+    let loc = LOC.with(|c| c.borrow().clone());
+    // a panic raised by the harness's own code (not by ckc-rs or core on its behalf) is a harness defect
+    if result == "VIOLATES" && failed.is_empty() && loc.contains("/verif/harness/") {
+        result = "HARNESS-PANIC";
+    }
     println!(
-        "REPLAY harness={name} profile={profile} result={result} failed={failed:?} panic={panic_msg:?} covered={} draws_used={used} exhausted={exhausted}",
+        "REPLAY harness={name} profile={profile} result={result} failed={failed:?} panic={panic_msg:?} at={loc:?} covered={} draws_used={used} exhausted={exhausted}",
         covered.len()
     );
     std::process::exit(match result {
         "HOLDS" => 0,
         "VIOLATES" => 1,
+        "HARNESS-PANIC" => 4,
         _ => 3,
     });
 }
